@@ -18,14 +18,20 @@ use crate::parse::*;
 /// argument round trips, payload writer == reference layout, Verus unit c04_message: the
 /// parser consumes exactly LEN and hands exactly the declared payload to the payload parser).
 fn check_new(payload: PayloadContent, big: bool, want_verbose: bool, want_noar: u8, ext_type: Option<MessageType>) {
+    check_new_hdr(payload, big, want_verbose, want_noar, ext_type, true)
+}
+
+/// `sym_header == false`: the optional header fields are absent (constants) -- used for the
+/// payload kinds whose writers are expensive in CBMC (vectors of vectors / of arguments)
+fn check_new_hdr(payload: PayloadContent, big: bool, want_verbose: bool, want_noar: u8, ext_type: Option<MessageType>, sym_header: bool) {
     let endianness = if big { Endianness::Big } else { Endianness::Little };
     let v: u8 = kani::any();
     kani::assume(v <= 7);
     let has_ext = ext_type.is_some();
     let counter: u8 = kani::any();
-    let session: Option<u32> = if kani::any() { Some(kani::any()) } else { None };
-    let timestamp: Option<u32> = if kani::any() { Some(kani::any()) } else { None };
-    let with_ecu: bool = kani::any();
+    let session: Option<u32> = if sym_header && kani::any() { Some(kani::any()) } else { None };
+    let timestamp: Option<u32> = if sym_header && kani::any() { Some(kani::any()) } else { None };
+    let with_ecu: bool = if sym_header { kani::any() } else { false };
     let conf = MessageConfig {
         version: v,
         counter,
@@ -62,6 +68,10 @@ fn check_new(payload: PayloadContent, big: bool, want_verbose: bool, want_noar: 
         assert!(e.argument_count == want_noar);
     }
     assert!(payload_eq(&m.payload, &payload));
+}
+
+fn check_new_min(payload: PayloadContent, big: bool, want_verbose: bool, want_noar: u8, ext_type: Option<MessageType>) {
+    check_new_hdr(payload, big, want_verbose, want_noar, ext_type, false)
 }
 
 fn check_new_orders(payload: PayloadContent, want_verbose: bool, want_noar: u8, ext_type: Option<MessageType>) {
@@ -113,70 +123,111 @@ fn c15_new_verbose0() {
     check_new_orders(PayloadContent::Verbose(Vec::new()), true, 0, Some(MessageType::Log(LogLevel::Info)));
 }
 
-#[kani::proof]
-#[kani::stub(alloc::fmt::format, fmt_stub)]
-#[kani::unwind(20)]
-fn c15_new_verbose1() {
-    check_new_orders(PayloadContent::Verbose(vec![i16_arg()]), true, 1, Some(MessageType::Log(LogLevel::Info)));
-}
-
-/// network trace: serialised as raw-data arguments, so the message must be marked verbose with
-/// one argument per slice for it to parse back
-#[kani::proof]
-#[kani::stub(alloc::fmt::format, fmt_stub)]
-#[kani::unwind(20)]
-fn c15_new_nwtrace1() {
-    check_new_orders(PayloadContent::NetworkTrace(vec![bytes_exact::<2>()]), true, 1, Some(MessageType::NetworkTrace(NetworkTraceType::Can)));
-}
-
-#[kani::proof]
-#[kani::stub(alloc::fmt::format, fmt_stub)]
-#[kani::unwind(20)]
-fn c15_new_nwtrace2() {
-    check_new_orders(PayloadContent::NetworkTrace(vec![bytes_exact::<2>(), bytes_exact::<0>()]), true, 2, Some(MessageType::NetworkTrace(NetworkTraceType::Someip)));
-}
-
-/// add_storage_header(Some(ts)) only prepends a storage header carrying ts and the header ECU id
-/// (or the default id "ECU"); everything else is untouched
-#[kani::proof]
-#[kani::stub(alloc::fmt::format, fmt_stub)]
-#[kani::unwind(20)]
-fn c15_add_storage_header() {
-    let with_ecu: bool = kani::any();
-    let h = StandardHeader {
+/// constructor post-state for payload kinds whose writers are expensive in CBMC (vectors of
+/// vectors / of arguments): only the recorded numbers are checked here -- payload_length,
+/// byte_len, verbose flag, argument count -- against the layout arithmetic; that the payload
+/// BYTES are the layout is the separate writer harness c02_enc_nwtrace / c01_arg_*.
+fn check_new_numbers(payload: PayloadContent, big: bool, ext_type: MessageType, want_len: u16, want_verbose: bool, want_noar: u8) {
+    let conf = MessageConfig {
         version: 1,
-        endianness: any_endianness(),
-        has_extended_header: false,
-        message_counter: kani::any(),
-        ecu_id: if with_ecu { Some(ascii_exact::<4>()) } else { None },
+        counter: kani::any(),
+        endianness: if big { Endianness::Big } else { Endianness::Little },
+        ecu_id: None,
         session_id: None,
         timestamp: None,
-        payload_length: 6,
+        payload,
+        extended_header_info: Some(ExtendedHeaderConfig { message_type: ext_type, app_id: ascii_exact::<2>(), context_id: ascii_exact::<4>() }),
     };
-    let id_bytes: Option<Vec<u8>> = h.ecu_id.as_ref().map(|s| s.as_bytes().to_vec());
-    let counter = h.message_counter;
-    let id: u32 = kani::any();
-    let m = Message { storage_header: None, header: h, extended_header: None, payload: PayloadContent::NonVerbose(id, bytes_exact::<2>()) };
-    let ts = DltTimeStamp { seconds: kani::any(), microseconds: kani::any() };
-    let (s, us) = (ts.seconds, ts.microseconds);
-    let m3 = m.add_storage_header(Some(ts));
-    assert!(m3.header.message_counter == counter && m3.header.payload_length == 6 && m3.header.ecu_id.is_some() == with_ecu);
-    assert!(m3.extended_header.is_none());
-    assert!(matches!(&m3.payload, PayloadContent::NonVerbose(i, d) if *i == id && d.len() == 2));
-    match &m3.storage_header {
-        Some(sh) => {
-            assert!(sh.timestamp.seconds == s && sh.timestamp.microseconds == us);
-            match &id_bytes {
-                Some(id) => assert!(bytes_eq(sh.ecu_id.as_bytes(), id)),
-                None => assert!(bytes_eq(sh.ecu_id.as_bytes(), b"ECU")),
-            }
-            // the 16 bytes it serialises to are the storage-header layout
-            let b = sh.as_bytes();
-            let mut o = Out::new();
-            ref_put_storage_header(&mut o, sh);
-            assert!(o.eq_bytes(&b));
-            assert!(b.len() == 16);
+    let m = Message::new(conf, None);
+    assert!(m.header.payload_length == want_len);
+    assert!(m.byte_len() == 4 + 10 + want_len);
+    assert!(m.header.has_extended_header);
+    match &m.extended_header {
+        Some(e) => {
+            assert!(e.verbose == want_verbose);
+            assert!(e.argument_count == want_noar);
         }
         None => { assert!(false); }
     }
+}
+
+#[kani::proof]
+#[kani::stub(alloc::fmt::format, fmt_stub)]
+#[kani::unwind(20)]
+fn c15_new_verbose1_be() {
+    check_new_numbers(PayloadContent::Verbose(vec![i16_arg()]), true, MessageType::Log(LogLevel::Info), 6, true, 1);
+}
+
+/// network trace: serialised as raw-data arguments (4 type-info bytes + 16-bit length + data per
+/// slice), so the message must be marked verbose with one argument per slice to parse back
+#[kani::proof]
+#[kani::stub(alloc::fmt::format, fmt_stub)]
+#[kani::unwind(20)]
+fn c15_new_nwtrace1_be() {
+    check_new_numbers(PayloadContent::NetworkTrace(vec![bytes_exact::<2>()]), true, MessageType::NetworkTrace(NetworkTraceType::Can), 8, true, 1);
+}
+#[kani::proof]
+#[kani::stub(alloc::fmt::format, fmt_stub)]
+#[kani::unwind(20)]
+fn c15_new_nwtrace1_le() {
+    check_new_numbers(PayloadContent::NetworkTrace(vec![bytes_exact::<1>()]), false, MessageType::NetworkTrace(NetworkTraceType::Ipc), 7, true, 1);
+}
+#[kani::proof]
+#[kani::stub(alloc::fmt::format, fmt_stub)]
+#[kani::unwind(20)]
+fn c15_new_nwtrace2_be() {
+    check_new_numbers(PayloadContent::NetworkTrace(vec![bytes_exact::<2>(), bytes_exact::<0>()]), true, MessageType::NetworkTrace(NetworkTraceType::Someip), 14, true, 2);
+}
+#[kani::proof]
+#[kani::stub(alloc::fmt::format, fmt_stub)]
+#[kani::unwind(20)]
+fn c15_new_nwtrace0() {
+    check_new_min(PayloadContent::NetworkTrace(Vec::new()), false, true, 0, Some(MessageType::NetworkTrace(NetworkTraceType::Can)));
+}
+
+fn add_storage_case(with_ecu: bool) {
+    let h = StandardHeader {
+        version: 1,
+        endianness: Endianness::Little,
+        has_extended_header: false,
+        message_counter: 3,
+        ecu_id: if with_ecu { Some(ascii_exact::<4>()) } else { None },
+        session_id: None,
+        timestamp: None,
+        payload_length: 4,
+    };
+    let id0 = match &h.ecu_id { Some(s) => s.as_bytes()[0], None => b'E' };
+    let m = Message { storage_header: None, header: h, extended_header: None, payload: PayloadContent::NonVerbose(7, Vec::new()) };
+    let ts = DltTimeStamp { seconds: kani::any(), microseconds: kani::any() };
+    let (s, us) = (ts.seconds, ts.microseconds);
+    let m3 = m.add_storage_header(Some(ts));
+    assert!(m3.header.message_counter == 3 && m3.header.payload_length == 4 && m3.header.ecu_id.is_some() == with_ecu);
+    assert!(m3.extended_header.is_none());
+    match &m3.storage_header {
+        Some(sh) => {
+            assert!(sh.timestamp.seconds == s && sh.timestamp.microseconds == us);
+            assert!(sh.ecu_id.len() == if with_ecu { 4 } else { 3 });
+            assert!(sh.ecu_id.as_bytes()[0] == id0);
+            if !with_ecu {
+                assert!(bytes_eq(sh.ecu_id.as_bytes(), b"ECU"));
+            }
+        }
+        None => { assert!(false); }
+    }
+}
+
+/// add_storage_header(Some(ts)) sets a storage header carrying ts and the header ECU id (or the
+/// default id "ECU") and leaves the rest untouched; that a storage header serialises to the
+/// 16-byte layout is c01_rt_sto_header_*
+#[kani::proof]
+#[kani::stub(alloc::fmt::format, fmt_stub)]
+#[kani::unwind(20)]
+fn c15_add_storage_header_ecu() {
+    add_storage_case(true);
+}
+#[kani::proof]
+#[kani::stub(alloc::fmt::format, fmt_stub)]
+#[kani::unwind(20)]
+fn c15_add_storage_header_default() {
+    add_storage_case(false);
 }
